@@ -366,6 +366,19 @@ static void oracle_handle(int id, const char* how) {
 }
 
 /* ----------------------------------------------------------------------------------------------- describing targets */
+/* the slot level of an Array (Cello/HdrSlots.lean): number of elements, number of slots, and how many element slots do not
+   carry (element type, AllocData, magic number) — read straight from the storage, not through get() */
+static void array_slots(var x, size_t* n, size_t* cap, int* bad) {
+  struct Array* a = x; *n = a->nitems; *cap = a->nslots; *bad = 0;
+  for (size_t j = 0; j < a->nitems && j < a->nslots; j++) {
+    struct Header* h = (struct Header*)((char*)a->data + (a->tsize + sizeof(struct Header)) * j);
+    if (h->magic != (var)CELLO_MAGIC_NUM || h->type != a->type || h->alloc != (var)(intptr_t)AllocData) (*bad)++;
+  }
+}
+static long slot_stat[16];
+static const char* slot_stat_name[16] = { "push", "push-grow", "pop", "pop-shrink", "pushat", "pushat-grow", "popat", "popat-shrink", "concat",
+  "resize0", "resize-shrink", "resize-same", "resize-grow", "refused", "pushat-end", "pushat-end-fresh" };
+
 static void describe(char* o, char* end, Target t) {
   if (!meta[t.id].used) { snprintf(o, end - o, "gone"); return; }
   if (!meta[t.id].live) { snprintf(o, end - o, "ty=- cls=- reg=- live=0 v=-"); return; }
@@ -374,6 +387,7 @@ static void describe(char* o, char* end, Target t) {
     o += snprintf(o, end - o, "ty=%s cls=%s reg=%s live=1 sz=%zu cap=%zu v=", ty_name(x), cls_name(cls_of(x)), reg_name(x),
                   magic_ok(x) ? size(type_of(x)) : (size_t)0, obj_cap(t.id));
     dump_obj(o, end, t.id);
+    if (meta[t.id].kind == K_ARR) { size_t n, cap; int bad; array_slots(x, &n, &cap, &bad); o += strlen(o); snprintf(o, end - o, " slots=%zu/%zu/%d", n, cap, bad); }
   } else {
     var e = resolve_elem(t);
     if (!e) { snprintf(o, end - o, "gone"); return; }
@@ -1253,6 +1267,7 @@ static void do_line(char** lines, size_t n, size_t li, int* recursed) {
     if (!supported_inplace(kind, x, p, A, p == P_RESIZE ? (int)nn : B)) SKIP("unsupported");
     describe(before, before + sizeof before, t);
     var xty = type_of(x); size_t tlen = xty == Tuple ? tuple_len(x) : 0;
+    size_t sn0 = 0, scap0 = 0; int sbad0 = 0; if (t.kind == 0 && kind == K_ARR) array_slots(x, &sn0, &scap0, &sbad0);
     if (cl != AllocHeap) protect(x, cap);
     expect_begin();
     V_TRY(exc, call_inplace(x, p, A, B, nn));
@@ -1263,6 +1278,22 @@ static void do_line(char** lines, size_t n, size_t li, int* recursed) {
     if (exc) n_refused++;
     oracle_refusal(op, 0, p, xty, cl, exc, before, after, nn, tlen);
     if (t.kind == 0) oracle_handle(t.id, "after an in-place operation");
+    if (t.kind == 0 && kind == K_ARR) {
+      size_t sn, scap; int sbad; array_slots(x, &sn, &scap, &sbad);
+      if (sn > scap) XF("hdr-array-slot", "after %s the Array counts %zu elements in %zu slots", op, sn, scap);
+      if (sbad) XF("hdr-array-slot", "after %s, %d of the %zu element slots of the Array do not carry (element type, AllocData, magic number)", op, sbad, sn);
+      int g = scap != scap0, k = -1;
+      if (exc) k = 13;
+      else switch (p) {
+        case P_PUSH: k = g ? 1 : 0; break;
+        case P_POP: k = g ? 3 : 2; break;
+        case P_PUSH_AT: k = g ? 5 : 4; if (nn == (long)sn0 || nn == -1) { slot_stat[14]++; if (sn0 == scap0) slot_stat[15]++; } break;
+        case P_POP_AT: k = g ? 7 : 6; break;
+        case P_CONCAT: k = 8; break;
+        case P_RESIZE: k = nn == 0 ? 9 : (size_t)nn < sn0 ? 10 : (size_t)nn == sn0 ? 11 : 12; break;
+      }
+      if (k >= 0) slot_stat[k]++;
+    }
     /* every element of a container that was changed still carries the declared type and the class `data` */
     if (t.kind == 0 && (kind == K_ARR || kind == K_LST)) { size_t k = len(x); for (size_t q = 0; q < k && q < 64; q++) oracle_object(get(x, $I(q)), iter_type(x), AllocData, "element after an operation"); }
     if (t.kind == 0 && (kind == K_TAB || kind == K_TRE)) { static Ent ents[MAXENT]; size_t k = map_entries(x, ents);
@@ -1469,5 +1500,6 @@ int main(int argc, char** argv) {
   (void)len(current(Exception));
   exec(lines, n, 0);
   I("ops=%d births=%d refused=%d oracle-failures=%d", n_ops, n_births, n_refused, n_x);
+  { char b[600]; char* o = b; for (int k = 0; k < 16; k++) o += snprintf(o, b + sizeof b - o, " %s=%ld", slot_stat_name[k], slot_stat[k]); I("slots%s", b); }
   return 0;
 }
